@@ -1780,6 +1780,14 @@ func main() {
 	}
 	sb.WriteString("def registry : List (String × Bool × Option Nat) :=\n  [" + strings.Join(reg, ",\n   ") + "]\n\n")
 	sb.WriteString("def writeSites : List String :=\n  " + leanStrList(f.WriteSites) + "\n\n")
+	{
+		// the function each write site is in (the part of the site before its first ':'), as a parallel list
+		var fns []string
+		for _, w := range f.WriteSites {
+			fns = append(fns, strings.SplitN(w, ":", 2)[0])
+		}
+		sb.WriteString("def writeSiteFuncs : List String :=\n  " + leanStrList(fns) + "\n\n")
+	}
 	sb.WriteString("def panicSites : List String :=\n  " + leanStrList(f.PanicSites) + "\n\n")
 	sb.WriteString("def goSites : List String :=\n  " + leanStrList(f.GoSites) + "\n\n")
 	sb.WriteString("def recoverFuncs : List String :=\n  " + leanStrList(f.RecoverFuncs) + "\n\n")
